@@ -503,6 +503,17 @@ func (r *rec) collide(corpus []string) {
 					}
 					b.MakeMove(lm[r.rng.Intn(len(lm))])
 				}
+				if r.rng.Intn(2) == 0 {
+					// end on a checking move if there is one: in a position in check almost every move that merely looks
+					// playable is not
+					for _, m := range proj.Playable(b, pms) {
+						rv := b.MakeMove(m)
+						if b.InCheck(b.STM) {
+							break
+						}
+						b.UndoMove(m, rv)
+					}
+				}
 				nb, err := board.FromFEN(b.FEN())
 				if err != nil || seen[nb.Hash()] {
 					continue
